@@ -149,6 +149,10 @@ def pureModelHMAC (fs : List String) : Option String :=
     (kindOf (kv r "kind")).map fun k =>
       genStr (generatePrefixed (tablesOf r).crypto k (unhex (kv r "g")) (kv r "e").toInt! (streamRng (unhex (kv r "stream"))))
   | "hmac" :: "mint" :: r => some (mintObs (unhex (kv r "g")) (kv r "e").toInt! (kv r "n").toNat!)
+  | "hmac" :: "ucode" :: r =>
+    some (match generateUserCode (unhex (kv r "g")) (kv r "len").toNat! with
+      | some n => s!"ok len={n} sig=true"
+      | none => "err_short_secret")
   | _ => none
 
 /-- spec side (monitor oracle): the declarative meaning in `Spec/HMAC.lean`, independent of the loops -/
@@ -170,6 +174,11 @@ def pureSpecHMAC (fs : List String) : Option String :=
         | .ok (t, s) => .ok ("ory_".toList ++ k.part ++ ['_'] ++ t, s)
         | .error e => .error e)
   | "hmac" :: "mint" :: _ => some "skip"
+  | "hmac" :: "ucode" :: r =>
+    -- documented meaning: a secret shorter than 32 bytes is refused; otherwise a code of the configured length
+    -- comes with its signature
+    some (if (unhex (kv r "g")).length < 32 then "err_short_secret"
+          else s!"ok len={if (kv r "len").toNat! = 0 then 8 else (kv r "len").toNat!} sig=true")
   | _ => none
 
 end Fosite.Driver
